@@ -1,7 +1,6 @@
 package checks
 
 import (
-	"time"
 	"bytes"
 	"encoding/base64"
 	"encoding/hex"
@@ -10,6 +9,7 @@ import (
 	"os"
 	"sort"
 	"strings"
+	"time"
 
 	"github.com/corestario/kyber/encrypt/ecies"
 	"github.com/corestario/kyber/pairing/bls12381"
